@@ -234,6 +234,9 @@ func checkC08(c *C08Case) (string, c08Facts) {
 		proxy.set(backend)
 		proxy.count = true
 		seen := map[string]map[string]bool{} // type -> tags validated so far under this backend
+		for k := range rmSlots { // rule-map objects live as long as one history
+			delete(rmSlots, k)
+		}
 		inst, names := c.instantiate()       // fresh names for late registrations, per configuration
 		for i, step := range inst.flatten() {
 			if step.reg != "" {
@@ -399,6 +402,28 @@ func genC08Case(t *rapid.T) *C08Case {
 			cp := *src.S
 			cp.Tag = rapid.SampledFrom([]string{"", "alipay", "wechat", emptyTag}).Draw(t, "newTag")
 			cp.pickEntry(rapid.IntRange(0, 7).Draw(t, "entry2"))
+			nc := &Call{S: &cp}
+			made = append(made, nc)
+			c.Ops = append(c.Ops, C08Op{Call: nc})
+		case k == 6 && len(made) > 0: // the same call with its rule-map OBJECT reused and one rule edited in place
+			src := made[rapid.IntRange(0, len(made)-1).Draw(t, "reuseRM")]
+			if len(src.S.Unscoped) == 0 {
+				c.Ops = append(c.Ops, C08Op{Call: src})
+				break
+			}
+			if src.S.RMSlot == "" {
+				src.S.RMSlot = fmt.Sprintf("slot%d", len(made))
+			}
+			cp := *src.S
+			cp.Unscoped = map[string]string{}
+			edited := false
+			for _, k := range sortedKeys(src.S.Unscoped) {
+				cp.Unscoped[k] = src.S.Unscoped[k]
+				if !edited && !strings.Contains(cp.Unscoped[k], "cfn1") {
+					cp.Unscoped[k] = rapid.SampledFrom([]string{"required|edited", "to=1~1|edited", "noeq=0|edited", "in=(zz)|edited"}).Draw(t, "editedRule")
+					edited = true
+				}
+			}
 			nc := &Call{S: &cp}
 			made = append(made, nc)
 			c.Ops = append(c.Ops, C08Op{Call: nc})
